@@ -1,5 +1,6 @@
-from nsl import Errors, Visitor
+from nsl import Visitor
 from .. import LinearIR
+import math
 
 
 class OptimizeConstantCastVisitor(Visitor.DefaultVisitor):
@@ -10,12 +11,17 @@ class OptimizeConstantCastVisitor(Visitor.DefaultVisitor):
         value = ci.Value
         if isinstance(value, LinearIR.ConstantValue):
             constant = value.Value
+            # This must compute what the VM computes for the cast
             if isinstance(ci.Type, LinearIR.FloatType):
                 constant = float(constant)
+            elif isinstance(ci.Type, LinearIR.IntegerType):
+                if not ci.Type.Unsigned:
+                    constant = math.floor(constant)
+                else:
+                    constant = abs(math.floor(constant))
             else:
-                Errors.ERROR_INTERNAL_COMPILER_ERROR.Raise(
-                    f"Cannot cast constant {ci.Value} to type {ci.Type}"
-                )
+                # Nothing we can fold, leave the cast alone
+                return
             # Parent is basic block, and the parent of the basic block is
             # a function
             cv = ci.Parent.Parent.CreateConstant(ci.Type, constant)
